@@ -161,6 +161,7 @@ inductive Form where
   | ext (e : Name)              -- `*e`   (e = ".pyc", …)
   | exact (p : Path)            -- `a/b.py`
   | globDir (anyDepth : Bool) (g : Name)   -- `*.egg-info/`, `**/*_generated/` : glob on a directory name
+  | dirPath (q : Path)          -- `src/generated/` : a directory given by its path from the root (two or more components)
   deriving Repr
 
 def Form.render : Form → List Char
@@ -169,6 +170,7 @@ def Form.render : Form → List Char
   | .ext e => '*' :: e
   | .exact p => joinPath p
   | .globDir a g => (if a then ['*', '*', '/'] else []) ++ (g ++ ['/'])
+  | .dirPath q => joinPath q ++ ['/']
 
 /-- gitignore reading of the documented forms -/
 def Form.specMatch (p : Path) : Form → Bool
@@ -179,6 +181,7 @@ def Form.specMatch (p : Path) : Form → Bool
       | none => false
   | .exact q => p == q
   | .globDir _ g => (dirParts p).any (fun part => glob g part)
+  | .dirPath q => q.isPrefixOf (dirParts p)          -- everything below that directory, at any depth
 
 /-- well-formed documented pattern: literal name / extension without `/` -/
 def Form.wf : Form → Bool
@@ -187,6 +190,7 @@ def Form.wf : Form → Bool
   | .ext e => literal e && !e.contains '/'
   | .exact q => literal (joinPath q) && q.all (fun c => !c.contains '/' && !c.isEmpty) && !q.isEmpty
   | .globDir _ g => !g.contains '/' && !g.isEmpty && !g.contains '['
+  | .dirPath _ => false      -- modelled and specified, but outside `forms_exact`: its exactness is sampled by the correspondence check only
 
 /-- excluded by the always-excluded names: inside such a directory (below the target), or a compiled suffix -/
 def specExcluded (p : Path) : Bool :=
